@@ -36,3 +36,18 @@ def int_truthiness_tests(ctx, path_prefixes):
                 if isinstance(inner, ast.Name) and inner.id in conv and min(conv[inner.id]) < inner.lineno:
                     out.append((fn, inner.id, c))
     return n_fn, out
+
+
+def check(ctx, rep, files, floor, exempt=None, rule='arguments.zero-is-not-omitted'):
+    """Emit one obligation per truthiness test on an int-converted local in `files`; `exempt` maps
+    (function, local) -> reason for deliberate boolean use of a converted number."""
+    from .source import short
+    exempt = exempt or {}
+    n_fn, hits = int_truthiness_tests(ctx, files)
+    for fn, local, test in hits:
+        who = qualname(fn).split(':')[1]
+        reason = exempt.get((who, local))
+        rep.ob(rule, '%s: `%s` tested by truthiness after conversion to int' % (who, local), reason is not None,
+               reason or 'an argument given as 0 is treated as left out (%s); ask `is None`' % short(test, 60), ctx.where(test))
+    rep.floor(rule, n_fn, floor, 'callbacks with int-converted arguments')
+    return n_fn
